@@ -32,9 +32,10 @@ var c14Templates = []string{
 	`S1F? <L[?]>.`,                      // 20 function code / size bracket content
 }
 
-// c14Hints: the size hints tried wherever a template has a run of '#': small, plausible, absurd
-// (the largest the parser accepts is 2^31-1).
-var c14Hints = []string{"0", "1", "2", "3", "70000", "99999999", "2147483647", "2147483648", "99999999999"}
+// c14Hints: the size hints tried wherever a template has a run of '#': small, plausible, absurd,
+// and the machine-word boundaries (2^31, 2^32, 2^63, 2^64 and their predecessors).
+var c14Hints = []string{"0", "1", "2", "3", "70000", "99999999", "2147483647", "2147483648", "99999999999",
+	"4294967295", "4294967296", "9223372036854775807", "9223372036854775808", "18446744073709551615", "18446744073709551616"}
 
 func c14Fill(t string) string {
 	var out []byte
@@ -135,4 +136,46 @@ func VerifC14_Independent() {
 	if e2 == nil && f2 == nil && len(r2) == 1 && len(q2) == 1 {
 		vsymAssert(r2[0].Equal(q2[0]), "same-message-strict")
 	}
+}
+
+// c14DigitHint: a size hint of n symbolic decimal digits.
+func c14DigitHint(n int) string {
+	d := make([]byte, n)
+	for i := range d {
+		c := vsymU8()
+		vsymAssume(c >= '0' && c <= '9')
+		d[i] = c
+	}
+	return string(d)
+}
+
+// VerifC14_SymbolicHint: the size hint as a string of symbolic decimal digits, leading zeros
+// allowed. Quick: 10 digits (every value below 10^10: across the int32 and uint32 boundaries; the
+// 64-bit boundaries are covered by the concrete c14Hints table). Thorough: 20 digits (every value
+// below 10^20: across the int64 and uint64 boundaries too), and 1, 10, 19 and 21 digits, on an ASCII, a list and a binary item, both parser modes: no panic,
+// allocation bounded by the input, error positions inside the input.
+func VerifC14_SymbolicHint() {
+	vsymExpect("error")
+	vsymExpect("parsed")
+	vsymRegion("sizeHintPreallocation")
+	vsymFmtOpaque(true) // the wording of error messages that quote the hint is not the subject
+	n := 10
+	if vsymTier() == 1 {
+		n = []int{20, 1, 10, 19, 21}[vsymChoose(5)]
+	}
+	h := c14DigitHint(n)
+	var input string
+	kinds := 1 // quick: the ASCII item, the one whose hint enters index arithmetic; thorough: also list and binary
+	if vsymTier() == 1 {
+		kinds = 3
+	}
+	switch vsymChoose(kinds) {
+	case 0:
+		input = `S1F1 <A[` + h + `] "x">.`
+	case 1:
+		input = `S1F1 <L[` + h + `] <U1 1>>.`
+	default:
+		input = `S1F1 <B[` + h + `] 0x1F>.`
+	}
+	c14Check(input, vsymBool())
 }
